@@ -29,6 +29,7 @@ func Families(quick bool) []*prog.Case {
 	cases = append(cases, famFlow(quick)...)
 	cases = append(cases, famLoops(quick)...)
 	cases = append(cases, famSeq(quick)...)
+	cases = append(cases, famImplicit(quick, types)...)
 	return cases
 }
 
@@ -150,6 +151,10 @@ func Run(c *vl.Ctx) {
 			c.Distinct(k.ID)
 		}
 		switch {
+		case !o.Accepted && k.Tag == "may-reject":
+			// whether the conversion is allowed without a cast is decided elsewhere (C11)
+			c.Outcome("rejected (allowed: a cast may be demanded)")
+			c.Count("implicit_conversions_rejected", 1)
 		case !o.Accepted:
 			c.Outcome("rejected")
 			c.Fail(vl.Fail{Case: k.ID, Obs: "rejected: " + o.Reject, Files: map[string]string{"main.fer": fl.Render(k.P), "expected.txt": k.Want.String()}})
